@@ -15,7 +15,7 @@ BUILD = os.path.join(ROOT, 'build')
 REPO = os.environ.get('VERIF_REPO', '/repo')
 GOENV = dict(os.environ, GOFLAGS='-mod=mod', GOPROXY='off', GOSUMDB='off', GOTOOLCHAIN='local')
 ALLOWED_AXIOMS = {'propext', 'Classical.choice', 'Quot.sound'}
-FORBIDDEN = re.compile(r'\b(sorry|admit|native_decide|bv_decide|implemented_by|unsafe)\b|^\s*axiom\s|maxHeartbeats\s+0')
+FORBIDDEN = re.compile(r'\b(sorry|admit|native_decide|bv_decide|implemented_by|unsafe)\b|^\s*axiom\s|maxHeartbeats\s+0|^\s*(private\s+)?partial\s+def\b')
 
 sys.path.insert(0, os.path.join(ROOT, 'gen'))
 
@@ -80,7 +80,10 @@ def lean_check(pid, tier):
             mm = re.match(r'\s*import\s+(\S+)', ln)
             if mm:
                 todo.append(mm.group(1))
-            if FORBIDDEN.search(ln):
+            fm = FORBIDDEN.search(ln)
+            if fm and 'partial' in fm.group(0) and mname.startswith('WebPkg.Driver'):
+                fm = None          # the line-protocol driver is glue (IO loops), not part of any theorem
+            if fm:
                 res['ok'] = False
                 res['failures'].append(f'forbidden token in {mname}: {ln.strip()[:80]}')
     res['modules_scanned'] = len(seen)
@@ -138,6 +141,13 @@ def build_harness(race=False):
     return out, ''
 
 
+def limit_as():
+    # address-space cap for harness processes: a parser that trusts a declared length dies with Go's fatal
+    # "out of memory" (reported as 'crash') instead of taking the machine down
+    import resource
+    resource.setrlimit(resource.RLIMIT_AS, (12 << 30, 12 << 30))
+
+
 def run_lines(binary, lines, nproc=8, env=None, timeout=3600):
     """feed numbered op lines to `binary` in nproc parallel processes; returns dict id->result"""
     if not lines:
@@ -150,7 +160,7 @@ def run_lines(binary, lines, nproc=8, env=None, timeout=3600):
     for ch in chunks:
         tf = tempfile.TemporaryFile('w+')
         tf.write('\n'.join(ch) + '\n'); tf.flush(); tf.seek(0)
-        p = subprocess.Popen([binary], stdin=tf, stdout=subprocess.PIPE, stderr=subprocess.PIPE, text=True, env=env)
+        p = subprocess.Popen([binary], stdin=tf, stdout=subprocess.PIPE, stderr=subprocess.PIPE, text=True, env=env, preexec_fn=limit_as if env else None)
         procs.append((p, tf))
     res = {}
     for p, tf in procs:
@@ -182,7 +192,22 @@ class Ctx:
     def go(self, ops):
         if not self.hbin:
             return [None] * len(ops)
-        r = run_lines(self.hbin, [f'{k} {op}' for k, op in enumerate(ops)], 16, env=self.goenv)
+        lines = [f'{k} {op}' for k, op in enumerate(ops)]
+        r = run_lines(self.hbin, lines, 16, env=self.goenv)
+        # a harness process that died (fatal runtime error, OOM kill) loses the rest of its chunk: re-run what is missing,
+        # finally one op per process; an op that kills its own process is reported as 'crash'
+        for rnd in range(4):
+            missing = [k for k in range(len(ops)) if str(k) not in r]
+            if not missing:
+                break
+            if rnd < 3 and len(missing) > 32:
+                r.update(run_lines(self.hbin, [lines[k] for k in missing], 16, env=self.goenv))
+            else:
+                for k in missing[:256]:
+                    r.update(run_lines(self.hbin, [lines[k]], 1, env=self.goenv, timeout=120))
+                    if str(k) not in r:
+                        r[str(k)] = 'crash'
+                break
         return [r.get(str(k)) for k in range(len(ops))]
 
     def model(self, ops):
@@ -349,12 +374,13 @@ def main():
             disagreements.append((op, g, m))
     known = load_known()
     for op, g, m in disagreements[:]:
+        site = gen.finding_site(op, g, m) if hasattr(gen, 'finding_site') else None
         for kp, kop, what in known:
-            if kp == pid and kop == op:
+            if kp == pid and (kop == op or (site is not None and kop == 'site:' + site)):
                 known_hits.append((op, what))
                 disagreements.remove((op, g, m))
                 break
-    for op, what in known_hits:
+    for what in dict.fromkeys(w for _, w in known_hits):
         print(f'KNOWN-FINDING: property={pid} {what}')
 
     if infra and not disagreements and lean['ok'] and hbin:
@@ -373,7 +399,7 @@ def main():
             break
         sop, sg, sm = shrink(pid, gen, op, hbin, g, m)
         p = write_replay(pid, dict(property=pid, kind='correspondence-disagreement', ops=[sop], original_op=op, go=sg, model=sm,
-                                   seed=seed, tier=tier, theorem=gen.THEOREMS,
+                                   seed=seed, tier=tier, theorem=(lean.get('theorems') or gen.THEOREMS),
                                    explanation=gen.explain(sop, sg, sm)))
         violations.append((p, ''))
     if not lean['ok'] or not hbin:
@@ -392,11 +418,11 @@ def main():
                     if g is None: g = 'crash'
                     if not gen.agree(op, g, m) and not any(kp == pid and kop == op for kp, kop, _ in known):
                         p = write_replay(pid, dict(property=pid, kind='correspondence-disagreement', ops=[op], go=g, model=m, seed=seed + 1,
-                                                   broken=what, theorem=gen.THEOREMS, explanation=gen.explain(op, g, m)))
+                                                   broken=what, theorem=(lean.get('theorems') or gen.THEOREMS), explanation=gen.explain(op, g, m)))
                         violations.append((p, '')); found = True
                         break
             if not found:
-                p = write_replay(pid, dict(property=pid, kind='obligation-broken', broken=what, theorem=gen.THEOREMS, ops=[],
+                p = write_replay(pid, dict(property=pid, kind='obligation-broken', broken=what, theorem=(lean.get('theorems') or gen.THEOREMS), ops=[],
                                            note='no concrete failing input found by the directed search'))
                 violations.append((p, ' no-failing-input-found'))
     write_evidence(pid, tier, seed, lean, ops, classes, distinct, len(violations), t0, gen,
